@@ -139,7 +139,7 @@ def ScopeOf (s : Scope) (σ : ArgMap) (ints : String → Int) (xs : List String)
 theorem reduceF_leaf (n : Nat) (l : Leaf) : reduceF (n + 1) (.leaf l) = .ok (.leaf l) := by
   simp [reduceF]
 
-theorem lower_int (s : Scope) (σ : ArgMap) (ints : String → Int) (ctx : Ctx) :
+theorem lower_int (s : Scope) (σ : ArgMap) (ints : String → Int) (ctx : Ctx) (hl : ctx.lvl ≠ 0) :
     ∀ (e : IExp), ScopeOf s σ ints e.pars → e.Fits ints → ∀ k,
       ∃ t, lowerE s (e.depth + 1 + k) ctx e.toL = .ok t ∧
         ∀ m, reduceF (e.depth + 2 + m) (applyArgs σ t) = .ok (.leaf (.number (e.den ints)))
@@ -153,14 +153,14 @@ theorem lower_int (s : Scope) (σ : ArgMap) (ints : String → Int) (ctx : Ctx) 
     obtain ⟨⟨ty, hr⟩, hσ⟩ := h x (by simp [IExp.pars])
     refine ⟨paramValue x (lowerTy ty), ?_, ?_⟩
     · rw [show (IExp.par x).depth + 1 + k = k + 1 by simp only [IExp.depth]; omega, IExp.toL, lowerE]
-      simp only [hr]
+      simp only [hr, hl, if_false]
     · intro m
       rw [show (IExp.par x).depth + 2 + m = (m + 1) + 1 by simp only [IExp.depth]; omega]
       simp only [paramValue, applyArgs, hσ, reduceF, IExp.den]
   | .add a b, h, hf, k => by
-    obtain ⟨ta, hla, hra⟩ := lower_int s σ ints ctx a (fun x hx => h x (by simp [IExp.pars, hx])) hf.1
+    obtain ⟨ta, hla, hra⟩ := lower_int s σ ints ctx hl a (fun x hx => h x (by simp [IExp.pars, hx])) hf.1
       (max a.depth b.depth - a.depth + k)
-    obtain ⟨tb, hlb, hrb⟩ := lower_int s σ ints ctx b (fun x hx => h x (by simp [IExp.pars, hx])) hf.2.1
+    obtain ⟨tb, hlb, hrb⟩ := lower_int s σ ints ctx hl b (fun x hx => h x (by simp [IExp.pars, hx])) hf.2.1
       (max a.depth b.depth - b.depth + k)
     refine ⟨builtin .add [ta, tb], ?_, ?_⟩
     · rw [show (IExp.add a b).depth + 1 + k = (a.depth + 1 + (max a.depth b.depth - a.depth + k)) + 1 by
@@ -177,9 +177,9 @@ theorem lower_int (s : Scope) (σ : ArgMap) (ints : String → Int) (ctx : Ctx) 
       simp only [builtin, applyArgs, applyArgsL, reduceF, mapMO, h1, h2, Outcome.ok_bind, Outcome.pure_eq_ok,
         isConstantL, isConstant, Bool.and_self, if_true, reduceBuiltin, arithAdd, small_inI128 hf.2.2, IExp.den]
   | .sub a b, h, hf, k => by
-    obtain ⟨ta, hla, hra⟩ := lower_int s σ ints ctx a (fun x hx => h x (by simp [IExp.pars, hx])) hf.1
+    obtain ⟨ta, hla, hra⟩ := lower_int s σ ints ctx hl a (fun x hx => h x (by simp [IExp.pars, hx])) hf.1
       (max a.depth b.depth - a.depth + k)
-    obtain ⟨tb, hlb, hrb⟩ := lower_int s σ ints ctx b (fun x hx => h x (by simp [IExp.pars, hx])) hf.2.1
+    obtain ⟨tb, hlb, hrb⟩ := lower_int s σ ints ctx hl b (fun x hx => h x (by simp [IExp.pars, hx])) hf.2.1
       (max a.depth b.depth - b.depth + k)
     refine ⟨builtin .sub [ta, tb], ?_, ?_⟩
     · rw [show (IExp.sub a b).depth + 1 + k = (a.depth + 1 + (max a.depth b.depth - a.depth + k)) + 1 by
@@ -203,7 +203,7 @@ theorem lower_int (s : Scope) (σ : ArgMap) (ints : String → Int) (ctx : Ctx) 
         isConstantL, isConstant, Bool.and_self, if_true, reduceBuiltin, arithSub, arithNeg, arithAdd, hnb, hs, IExp.den]
       rw [show a.den ints + -(b.den ints) = a.den ints - b.den ints by omega]
   | .neg a, h, hf, k => by
-    obtain ⟨ta, hla, hra⟩ := lower_int s σ ints ctx a (fun x hx => h x (by simp [IExp.pars, hx])) hf k
+    obtain ⟨ta, hla, hra⟩ := lower_int s σ ints ctx hl a (fun x hx => h x (by simp [IExp.pars, hx])) hf k
     refine ⟨builtin .negate [ta], ?_, ?_⟩
     · rw [show (IExp.neg a).depth + 1 + k = (a.depth + 1 + k) + 1 by simp only [IExp.depth]; omega, IExp.toL, lowerE]
       simp only [hla, Outcome.ok_bind]
@@ -216,16 +216,18 @@ theorem lower_int (s : Scope) (σ : ArgMap) (ints : String → Int) (ctx : Ctx) 
         isConstantL, isConstant, Bool.and_self, if_true, reduceBuiltin, arithNeg, hn, IExp.den]
 
 /-- **Lowering and reduction compute `⟦e⟧`** on the integer fragment: for every expression, every
-argument vector agreeing with the semantic environment, every position (`mode` / `ctx`) and all
-sufficient fuels, the semantics yields `den e` and the code — lower, apply the arguments, reduce —
+argument vector agreeing with the semantic environment, every position (`mode` / `ctx`; the
+identifiers of the expression must still carry symbols, `ctx.lvl ≠ 0`, which holds for every node of
+the transaction itself and eight symbols deep) and all sufficient fuels, the semantics yields `den e` and the code — lower, apply the arguments, reduce —
 yields the literal `den e`. -/
 theorem C01_int_fragment (ρ : Env) (s : Scope) (σ : ArgMap) (ints : String → Int) (mode : Mode) (ctx : Ctx)
+    (hl : ctx.lvl ≠ 0)
     (e : IExp) (hρ : ParamsOf ρ ints e.pars) (hs : ScopeOf s σ ints e.pars) (hf : e.Fits ints) (k m : Nat) :
     eval ρ (e.depth + 1 + k) mode e.toL = .ok (.int (e.den ints)) ∧
     ∃ t, lowerE s (e.depth + 1 + k) ctx e.toL = .ok t ∧
       reduceF (e.depth + 2 + m) (applyArgs σ t) = .ok (.leaf (.number (e.den ints))) := by
   refine ⟨eval_int ρ ints mode e hρ k, ?_⟩
-  obtain ⟨t, h1, h2⟩ := lower_int s σ ints ctx e hs hf k
+  obtain ⟨t, h1, h2⟩ := lower_int s σ ints ctx hl e hs hf k
   exact ⟨t, h1, h2 m⟩
 
 /-- **No re-association**: `a - b - c` denotes, and is computed as, `(a - b) - c`. -/
